@@ -30,3 +30,13 @@ def from_message(message):
         '#GETTING_DATA': DATA
     }
     return errdict.get(str(message), ERROR)
+
+
+def clear_tracebacks():
+    """
+    The error values are shared instances that are also raised: every raise appends
+    the frames it unwinds to the instance's traceback. Drop what an evaluation left behind.
+    """
+    for err in (ERROR, DIV_ZERO, NAME, NOT_AVAILABLE, NULL, NUM, REF, VALUE, DATA):
+        err.__traceback__ = None
+        err.__context__ = None
